@@ -168,6 +168,18 @@ def run_case(case):
         tol = tol + 1e-5 * (1 + np.abs(ref))
         bad = judged & fin & ~(err <= tol)
         rows = np.nonzero(bad)[0]
+        if len(rows):
+            # the numerically found point carries an error of ~1e-7 x propagation; where the log-det itself changes
+            # quickly (stiff spline next to an interval end) that moves it visibly: allow 64x its measured change
+            # over a displacement of 1e-6
+            d6 = 1e-6 * (1 + np.abs(ys))
+            spread = np.zeros(len(ys))
+            for Yn in ((ys + d6).astype(dtype), (ys - d6).astype(dtype)):
+                _, _, _, Jn = bt.run_padded(B_[other + "_jac"], b, Yn, c)
+                refn, _, _, _, _ = _judge(-np.asarray(ld, float), bt.mat(Jn, ii.shape), n, eps)
+                spread = np.maximum(spread, np.where(np.isfinite(refn), np.abs(refn - ref), 0.0))
+            bad &= ~(err <= tol + 64 * spread)
+            rows = np.nonzero(bad)[0]
         if len(rows):  # same one-sided admissible set, taken on the closed-form side
             okr = side_ok(other, b, ys, c, rows, -np.asarray(ld, float))
             bad[rows[okr]] = False
